@@ -456,6 +456,9 @@ func (e *integEngine) checkC06Shared() {
 			}
 			if !ok {
 				c.Violate("C06", "sequence", "stage %s running the shared task %s executed %v, model (with this stage's condition / command results) expects %v", s.Name, t.Name, got, want.Seq)
+				if len(got) == 0 && len(want.Seq) > 0 {
+					c.Violate("C03", "eligible-not-run", "stage %s (task %s, shared with other stages) was eligible but executed nothing (status %s)", s.Name, t.Name, statusName(e.stages[s.Name].ReadStatus()))
+				}
 			}
 			for i := 1; i < len(rs); i++ {
 				if rs[i-1].EndSeq < 0 || rs[i].StartSeq < rs[i-1].EndSeq {
